@@ -7,6 +7,7 @@ child per entry from the pristine zygote), and the module-level state of uxarray
 with the pristine snapshot.
 """
 
+import math
 import json
 import os
 import pickle
@@ -153,6 +154,9 @@ def menu(sid):
             t.append({"op": "tree", "type": "kd", "coords": coords, "csys": "cartesian", "metric": "minkowski", "reconstruct": rec})
             t.append({"op": "tree", "type": "kd", "coords": coords, "csys": "spherical", "metric": "minkowski", "reconstruct": rec})
     t += [{"op": "tree", "type": "ball"}, {"op": "tree", "type": "kd"}, {"op": "tree", "type": "kd", "coords": "face centers", "csys": "cartesian", "metric": "chebyshev"}]
+    for coords in ("nodes", "face centers", "edge centers"):
+        for me in ("chebyshev", "manhattan"):
+            t.append({"op": "tree", "type": "kd", "coords": coords, "csys": "cartesian", "metric": me})
     m["tree"] = t
     m["chunk"] = [{"op": "chunk", "n_node": -1, "n_edge": -1, "n_face": -1}, {"op": "chunk", "n_node": 3, "n_edge": 4, "n_face": 2}]
     m["isel"] = [
@@ -177,6 +181,11 @@ def menu(sid):
             s.append({"op": "bbox", "lon": list(lon), "lat": list(lat), "element": el})
         s.append({"op": "bcircle", "center": list(geo["centers"][0]), "r": geo["radii"][1], "element": el})
         s.append({"op": "knn", "center": list(geo["centers"][1]), "k": 3, "element": el})
+        # a Cartesian centre goes through the grid's cached k-d tree (whatever metric it was last built with)
+        lo_c, la_c = (math.radians(v) for v in geo["centers"][1])
+        c3 = [math.cos(la_c) * math.cos(lo_c), math.cos(la_c) * math.sin(lo_c), math.sin(la_c)]
+        s.append({"op": "knn", "center": c3, "k": 4, "element": el})
+        s.append({"op": "knn", "center": c3, "k": 6, "element": el})
     s.append({"op": "knn", "center": list(geo["centers"][0]), "k": 1, "element": "face centers"})
     s.append({"op": "bbox", "lon": list(EMPTY_BOX[0]), "lat": list(EMPTY_BOX[1]), "element": "nodes"})  # fails by contract
     m["subset"] = s
